@@ -836,7 +836,9 @@ fn create_archive(
         return Ok(());
     }
 
-    Ok(())
+    anyhow::bail!(
+        "Batch mode (--batch) is no longer available; omit the flag to use the streaming queue mode"
+    )
 }
 
 fn write_bin<P: AsRef<Path>>(path: P, data: &[u8]) -> Result<()> {
